@@ -1,0 +1,15 @@
+//! Read-only access for the verification harness (built only with `--cfg linfa_verif`).
+//! Thin wrappers around private items of the count vectoriser; nothing here is used by the crate.
+use super::{transform_string, CountVectorizerValidParams};
+use crate::helpers::NGramList;
+
+/// `NGramList::new(words, range).into_iter().collect()` — the n-gram windows per start index.
+pub fn ngram_list(words: Vec<&str>, range: (usize, usize)) -> Vec<Vec<String>> {
+    NGramList::new(words, range).into_iter().collect()
+}
+
+/// The string the vectoriser tokenises for `doc`: `transform_string` (NFKD, lower-casing as
+/// configured).
+pub fn transformed(params: &CountVectorizerValidParams, doc: &str) -> String {
+    transform_string(doc.to_string(), params)
+}
